@@ -919,11 +919,16 @@ var solvers = []solverSpec{
 	{"z3-4.8.12", func(ms int) []string {
 		return []string{"z3", "-smt2", fmt.Sprintf("-t:%d", ms), "smt.mbqi=false", "auto_config=false", "smt.case_split=3"}
 	}},
+	// the retry solvers run with different search options than the first pass (smt.case_split=3 makes most
+	// checks fast but sends a few into long case analyses that the default heuristic avoids)
 	{"z3-5.1.0", func(ms int) []string {
-		return []string{"z3-new", "-smt2", fmt.Sprintf("-t:%d", ms), "smt.mbqi=false", "auto_config=false", "smt.case_split=3"}
+		return []string{"z3-new", "-smt2", fmt.Sprintf("-t:%d", ms), "smt.mbqi=false"}
 	}},
 	{"cvc5-1.0", func(ms int) []string {
 		return []string{"cvc5", "--lang=smt2", "--incremental", fmt.Sprintf("--tlimit-per=%d", ms)}
+	}},
+	{"z3-4.8.12/default-split", func(ms int) []string {
+		return []string{"z3", "-smt2", fmt.Sprintf("-t:%d", ms), "smt.mbqi=false"}
 	}},
 }
 
@@ -1060,7 +1065,7 @@ func (E *Engine) solvePath(key string, pi int, p *PathResult, full string) []Sub
 		single := head1(full, i)
 		var notes []string
 		notes = append(notes, fmt.Sprintf("%s: %s", out[i].Solver, out[i].Status))
-		retry := []solverSpec{solvers[1], solvers[2], solvers[0]}
+		retry := []solverSpec{solvers[1], solvers[2], solvers[3]}
 		tmo := E.TimeoutR
 		if E.knownFailing()[c.Ob] {
 			// an obligation recorded as a known finding is expected to fail: one short second opinion is enough
